@@ -1,13 +1,14 @@
 ----------------------------- MODULE SlicerCfgs -----------------------------
-(* Sample of the configuration list that checks/c05.py generates from the real slicer objects
+(* Sample (caption 525 at 27 MHz, low-pass; Teletext B at 13.5 MHz, new slicer Y8 and legacy slicer RGBA32)
+   of the configuration list that checks/c05.py generates from the real slicer objects
    (harness/drv_rawdec.c, command D).  One record per configured slicer:
    lp 1 = low-pass variant, skip = byte offset of the first sampled channel byte, bps = bytes per
    sample, wide 1 = the channel straddles both bytes of a 16 bit pixel, scan = number of scan steps,
    phase_shift / step in 1/256 samples, payload in bits (endian >= 2) or octets, spl = samples per
-   line, soff = samples skipped at the line start, after = image bytes behind this line.         *)
+   line, soff = samples skipped at the line start, id = index in the check's list.         *)
 CfgList == <<
-  [lp |-> 1, skip |-> 0, bps |-> 1, wide |-> 0, scan |-> 582, phase_shift |-> 10424, step |-> 13728, frc_bits |-> 0, payload |-> 2, endian |-> 1, spl |-> 1440, soff |-> 0, after |-> 0],
-  [lp |-> 0, skip |-> 0, bps |-> 1, wide |-> 0, scan |-> 55, phase_shift |-> 626, step |-> 498, frc_bits |-> 6, payload |-> 42, endian |-> 1, spl |-> 720, soff |-> 0, after |-> 0],
-  [lp |-> 0, skip |-> 0, bps |-> 1, wide |-> 0, scan |-> 55, phase_shift |-> 626, step |-> 498, frc_bits |-> 6, payload |-> 42, endian |-> 1, spl |-> 720, soff |-> 0, after |-> 720]
+  [id |-> 1, lp |-> 1, skip |-> 0, bps |-> 1, wide |-> 0, scan |-> 579, phase_shift |-> 10424, step |-> 13728, frc_bits |-> 0, payload |-> 2, endian |-> 1, spl |-> 1440, soff |-> 0],
+  [id |-> 2, lp |-> 0, skip |-> 0, bps |-> 1, wide |-> 0, scan |-> 54, phase_shift |-> 626, step |-> 498, frc_bits |-> 6, payload |-> 42, endian |-> 1, spl |-> 720, soff |-> 0],
+  [id |-> 3, lp |-> 0, skip |-> 2, bps |-> 4, wide |-> 0, scan |-> 54, phase_shift |-> 626, step |-> 498, frc_bits |-> 6, payload |-> 42, endian |-> 1, spl |-> 720, soff |-> 0]
 >>
 =============================================================================
